@@ -160,6 +160,10 @@ func PerformJoin(
 	joinEB := verImpl.NewEventBuilderFromProtoEvent(&joinEvent)
 
 	_ = json.Unmarshal(joinEvent.Content, &input.Content)
+	if input.Content == nil {
+		// The remote template had "content": null, which resets the map.
+		input.Content = map[string]interface{}{}
+	}
 	input.Content["membership"] = spec.Join
 	if err = joinEB.SetContent(input.Content); err != nil {
 		return nil, &FederationError{
